@@ -144,6 +144,30 @@ class DC:
     cv: typing.ClassVar[int] = 7
 
 
+@dataclasses.dataclass
+class DCCallable:
+    """data whose instances can be called (a virtual subclass of collections.abc.Callable) and count as false"""
+    first: typing.Any
+    other: typing.Any = 0
+
+    def __call__(self, *a):
+        return a
+
+    def __bool__(self):
+        return False
+
+
+class PlainCallable:
+    first: typing.Any
+    other: typing.Any
+
+    def __init__(self, first=None, other=None):
+        self.first, self.other = first, other
+
+    def __call__(self):
+        return self.first
+
+
 @dataclasses.dataclass(frozen=True)
 class DCFrozen:
     first: typing.Any
@@ -302,8 +326,8 @@ def case(draw):
         return {"cat": cat, "kind": kind, "content": list(d.items())}
     if cat == "structured":
         kind = draw(st.sampled_from(["DC", "DCFrozen", "DCSlots", "Plain", "SlotsOnly", "VarsOnly", "SlotsAnn", "SlotsAnnSub", "SlotsReordered", "DCSub", "DCMapNames", "SlotsMapNames",
-                                     "PlainBadHint", "SlotsBadHint", "PlainBadHintSub", "SigKwOnly", "SigKwOnlySlots", "SlotsOnlySub"]))
-        n = {"SlotsOnlySub": 3, "PlainBadHint": 3, "SlotsBadHint": 3, "PlainBadHintSub": 3, "SigKwOnly": 3, "SigKwOnlySlots": 3, "DC": 3, "DCFrozen": 2, "DCSlots": 2, "Plain": 3, "SlotsOnly": 3, "VarsOnly": draw(st.integers(0, 3)),
+                                     "PlainBadHint", "SlotsBadHint", "PlainBadHintSub", "SigKwOnly", "SigKwOnlySlots", "SlotsOnlySub", "DCCallable", "PlainCallable"]))
+        n = {"DCCallable": 2, "PlainCallable": 2, "SlotsOnlySub": 3, "PlainBadHint": 3, "SlotsBadHint": 3, "PlainBadHintSub": 3, "SigKwOnly": 3, "SigKwOnlySlots": 3, "DC": 3, "DCFrozen": 2, "DCSlots": 2, "Plain": 3, "SlotsOnly": 3, "VarsOnly": draw(st.integers(0, 3)),
              "SlotsAnn": 2, "SlotsAnnSub": 3, "SlotsReordered": 2, "DCSub": 3, "DCMapNames": 3, "SlotsMapNames": 2}[kind]
         vals = [draw(st.one_of(two_elem, anyval)) for _ in range(n)]
         return {"cat": cat, "kind": kind, "content": vals}
@@ -360,6 +384,9 @@ def build(c):
         if kind == "DC":
             x = DC(v[0], v[1], v[2])
             pairs = [("first", v[0]), ("second", v[1])]
+        elif kind in ("DCCallable", "PlainCallable"):
+            x = {"DCCallable": DCCallable, "PlainCallable": PlainCallable}[kind](v[0], v[1])
+            pairs = [("first", v[0]), ("other", v[1])]
         elif kind == "DCFrozen":
             x = DCFrozen(v[0], v[1])
             pairs = [("first", v[0]), ("other", v[1])]
@@ -455,7 +482,7 @@ def build(c):
 def nontrivial(c, x):
     if c["cat"] == "empty" or c["kind"] in ("generator", "iter", "map", "sizediter", "sizedcollectioniter"):
         return True
-    if c["cat"] == "namedtuple" or c["kind"] in ("DC", "Plain", "SlotsOnly", "VarsOnly", "SlotsAnn", "SlotsAnnSub", "SlotsReordered", "DCSub", "DCMapNames", "SlotsMapNames", "PlainBadHint", "SlotsBadHint", "PlainBadHintSub", "SigKwOnly", "SigKwOnlySlots", "SlotsOnlySub"):
+    if c["cat"] == "namedtuple" or c["kind"] in ("DC", "Plain", "SlotsOnly", "VarsOnly", "SlotsAnn", "SlotsAnnSub", "SlotsReordered", "DCSub", "DCMapNames", "SlotsMapNames", "PlainBadHint", "SlotsBadHint", "PlainBadHintSub", "SigKwOnly", "SigKwOnlySlots", "SlotsOnlySub", "DCCallable", "PlainCallable"):
         return True
     content = c["content"]
     if c["cat"] in ("pairs", "mixed") and content:
